@@ -61,12 +61,11 @@ def tlc_steps(ctx, inputs, name, consts=None, expect_violation=False, timeout=30
 
 # ------------------------------------------------------------------ replay
 def _call(fn):
-    try:
-        return fn(), ""
-    except Exception as err:  # pylint: disable=broad-except
-        tb = traceback.extract_tb(err.__traceback__)
-        where = f"{os.path.basename(tb[-1].filename)}:{tb[-1].lineno}" if tb else "?"
-        return None, f"{type(err).__name__}: {err} @ {where}"
+    from lib import mc as _mc
+    res = _mc.safe(fn)   # exceptions and calls that do not return become values
+    if isinstance(res, _mc.Raised):
+        return None, res.text
+    return res, ""
 
 
 def _observe_outputs(A, built, outputs):
